@@ -127,7 +127,8 @@ class Vol:
         e[0:11] = name11
         e[11] = attr
         e[14:16] = le16(ct); e[16:18] = le16(cd)
-        e[20:22] = le16(cluster >> 16) if self.fat32 else b"\0\0"
+        # FAT16: bytes 20..21 are not part of the cluster number (OS/2 / NT keep an extended-attribute handle there)
+        e[20:22] = le16(cluster >> 16) if self.fat32 else le16(getattr(self, "ea_word", 0))
         e[22:24] = le16(fat_time(*mtime[3:])); e[24:26] = le16(fat_date(*mtime[:3]))
         e[26:28] = le16(cluster); e[28:32] = le32(size)
         return bytes(e)
@@ -241,7 +242,10 @@ class Vol:
             hint = free[0] if free else 0xFFFFFFFF
             cnt, nxt = {"ok": (nfree, hint), "unknown": (0xFFFFFFFF, 0xFFFFFFFF), "stale0": (0, hint),
                         "stalehigh": (0xFFFFFFFE, 3), "oor": (nfree, self.N + 500), "hint1": (nfree, 1),
-                        "stalelow": (max(nfree - 3, 0), 2), "unknowncount": (0xFFFFFFFF, hint)}[self.info]
+                        "stalelow": (max(nfree - 3, 0), 2), "unknowncount": (0xFFFFFFFF, hint),
+                        # count truthful, hint names a cluster in use (what a crash between an allocation and the next
+                        # information-sector write leaves behind)
+                        "staleused": (nfree, max([c for c in range(2, self.N + 2) if self.fat[c]] or [2]))}[self.info]
             i = self.blk(1)
             i[0:4] = le32(0x41615252); i[484:488] = le32(0x61417272); i[488:492] = le32(cnt); i[492:496] = le32(nxt)
             i[508:512] = le32(0xAA550000)
